@@ -3,6 +3,8 @@ package main
 import (
 	"fmt"
 	"go/token"
+	"sort"
+	"strings"
 
 	"golang.org/x/tools/go/ssa"
 )
@@ -274,6 +276,43 @@ func checkC09(p *Program, r *Reporter) {
 				okDep := valueDependsOnField(p, st.Val, "mp4.Sample.Dur")
 				r.Decide(okDep, "E4-CHUNKDUR", shortFn(cs), "store:chunk.dur", p.pos(st.Pos()), "depends on mp4.Sample.Dur",
 					"the duration recorded for a chunk cannot depend on the durations of its samples: when the nominal chunk duration is not a whole number of samples the chunk is written before its real end", nil)
+			}
+		}
+	}
+	// the nominal chunk duration is the segment duration minus the advertised offset: of the request options
+	// only availabilityTimeOffset may enter it (the MPD advertises that offset and nothing else)
+	r.Rule("E4-NOMINAL", "nominal chunk duration handed to the splitter: computed from the segment duration and, of all URL options, from availabilityTimeOffset only", 1)
+	durIdx := -1
+	for i, prm := range cs.Params {
+		if prm.Name() == "chunkDur" {
+			durIdx = i
+		}
+	}
+	if durIdx < 0 {
+		r.Broken("chunkSegment has no chunkDur parameter")
+	} else {
+		for _, s := range callsTo(p, cs) {
+			arg := s.Common().Args[durIdx]
+			leaves := map[string]bool{}
+			sliceVisitUntil(p, arg, true, func(x ssa.Value) {
+				if f, ok := loadedField(x); ok {
+					leaves[f] = true
+				}
+			}, nil)
+			var other []string
+			for f := range leaves {
+				if strings.HasPrefix(f, "app.ResponseConfig.") && !strings.HasPrefix(f, "app.ResponseConfig.AvailabilityTimeOffsetS") {
+					other = append(other, f)
+				}
+			}
+			sort.Strings(other)
+			switch {
+			case !leaves["app.ResponseConfig.AvailabilityTimeOffsetS"] || !leaves["app.asset.SegmentDurMS"]:
+				r.Violate("E4-NOMINAL", shortFn(s.Parent()), "chunkDur-argument", p.pos(s.Pos()), "the chunk duration handed to chunkSegment does not depend on both the segment duration and availabilityTimeOffset: chunks are not sized to what the advertised offset leaves", nil)
+			case len(other) > 0:
+				r.Violate("E4-NOMINAL", shortFn(s.Parent()), "chunkDur-argument", p.pos(s.Pos()), "the chunk duration handed to chunkSegment also depends on the URL option(s) "+strings.Join(other, ", ")+": the MPD advertises availabilityTimeOffset only, so a chunk can span more media time than the offset leaves", nil)
+			default:
+				r.Discharge("E4-NOMINAL", shortFn(s.Parent()), "chunkDur-argument", p.pos(s.Pos()), "depends on asset.SegmentDurMS and ResponseConfig.AvailabilityTimeOffsetS and on no other URL option")
 			}
 		}
 	}
